@@ -101,7 +101,7 @@ def gen_case(rng, tier):
     if rng.random() < 0.06:
         if rng.random() < 0.5:
             case['factor'] = 1.0
-            case['count'] = rng.choice([0, 1, 3, 7])
+            case['count'] = rng.choice([0, 1, 3, 7, 'repeat'])
     if rng.random() < 0.08:
         bad = rng.choice(['start<0', 'factor<1', 'stop=0', 'stop<start', 'count<0', 'jitter>1', 'jitter<-1'])
         if bad == 'start<0':
@@ -223,8 +223,15 @@ def run_case(case):
         valid_scope = False          # default count with factor 1 is outside the statement
         out.digest = log.digest()
         return out
-    if valid:
+    if c == 'repeat':
+        c = ''.join(['rep', 'eat'])     # an equal string that is not the interned literal (read from a config file, say)
+        kw['count'] = c
+    if valid and isinstance(c, int) and 0 <= c <= 5000:
+        need = c                        # an explicit count needs no walk to stop (factor 1 never gets there)
+    elif valid:
         to_stop = _steps_to_stop(s, t, f, cap=5000)
+        if to_stop >= 5000 and c == 'repeat' and f == 1.0:
+            to_stop = 40                # constant sequence, repeated endlessly: look at the first few dozen
         if to_stop >= 5000:
             if c is None and _stationary(s, t, f):
                 # growth is not representable (start*factor rounds back to start): no float sequence can reach
